@@ -159,12 +159,17 @@ pub enum Extra {
     IfModifiedSince,
     ConnectionUpgrade,
     ContentEncodingGzip,
+    /// not a header: the request line says HTTP/1.0 (what a reverse proxy speaks by default),
+    /// HTTP/0.9, HTTP/2
+    Http10,
+    Http09,
+    Http2,
 }
 
 impl Extra {
     pub fn all() -> Vec<Extra> {
         use Extra::*;
-        vec![AcceptEncodingGzip, AcceptEncodingNothing, AcceptEncodingStarZero, AcceptEncodingUnknownOnly, AcceptJson, AcceptNothing, Range, IfNoneMatchStar, IfMatchStar, IfModifiedSince, ConnectionUpgrade, ContentEncodingGzip]
+        vec![AcceptEncodingGzip, AcceptEncodingNothing, AcceptEncodingStarZero, AcceptEncodingUnknownOnly, AcceptJson, AcceptNothing, Range, IfNoneMatchStar, IfMatchStar, IfModifiedSince, ConnectionUpgrade, ContentEncodingGzip, Http10, Http09, Http2]
     }
     fn header(&self) -> Option<(&'static str, &'static str)> {
         use Extra::*;
@@ -182,6 +187,9 @@ impl Extra {
             IfModifiedSince => ("If-Modified-Since", "Thu, 01 Jan 2099 00:00:00 GMT"),
             ConnectionUpgrade => ("Upgrade", "websocket"),
             ContentEncodingGzip => ("Content-Encoding", "gzip"),
+            Http10 => (":version", "1.0"),
+            Http09 => (":version", "0.9"),
+            Http2 => (":version", "2"),
         })
     }
 }
@@ -707,8 +715,7 @@ pub fn run_grammar(p: &GrammarParams, ds: &[Dim], empty_state: bool) -> (Grammar
 // fan-out
 
 fn spec_from_name(n: &str) -> SutSpec {
-    use crate::sut::*;
-    [MEM_LIB, SQL_LIB, SQL_LIB_REOPEN, MEM_HTTP, SQL_HTTP, MEM_HTTP_ALLOW, SQL_HTTP_ALLOW].into_iter().find(|s| s.name() == n).expect("spec name")
+    crate::sut::spec_from_name(n).expect("spec name")
 }
 
 fn static_mon(s: &str) -> &'static str {
